@@ -140,3 +140,125 @@ def look_through_private(crate, body, also=None):
             return False
         return also is None or also(cb, t)
     return mir.inline_calls(crate, body, pred)
+
+
+def normal_form(crate, body, also=None):
+    """body with private helpers inlined and iterator pipelines / visible closure calls made explicit (refactoring
+    tolerance: the rule packs are written against loops, guards and direct calls)"""
+    from .. import desugar
+    b = body
+    for _ in range(3):
+        b1 = look_through_private(crate, b, also)
+        b2 = desugar.desugar(crate, b1)
+        if b2 is b:
+            break
+        b = b2
+    return b
+
+
+def conjunction_paths(body, atom_of, limit=400):
+    """enumerate the paths of a small bool function: [(conds {atom: truth}, result)], result = True | False |
+    ("atom", key, truth) ; raises CheckerFailure when a branch or result is not an atom"""
+    from ..mir import strip, term_of
+
+    def as_atom(t):
+        neg = False
+        t = strip(t)
+        while t[0] == "unop" and t[1] == "Not":
+            t, neg = strip(t[2]), not neg
+        if t[0] == "const" and isinstance(t[1], bool):
+            return ("const", t[1] != neg)
+        if t[0] != "call":
+            return None
+        a = atom_of(t)
+        if a is None:
+            return None
+        key, pos = a
+        return ("atom", key, pos != neg)
+
+    out = []
+    stack = [(0, {}, None, 0)]
+    steps = 0
+    while stack:
+        bb, conds, res, depth = stack.pop()
+        steps += 1
+        if steps > limit or depth > 60:
+            raise CheckerFailure("predicate too large to enumerate")
+        blk = body.blocks[bb]
+        for st in blk["stmts"]:
+            if st["k"] == "assign" and st["place"]["l"] == 0 and not st["place"]["p"]:
+                if st["rv"]["k"] != "use":
+                    raise CheckerFailure("result computed by %s" % st["rv"]["k"])
+                a = as_atom(term_of(body, st["rv"]["op"]))
+                if a is None:
+                    raise CheckerFailure("result is not a recognised test")
+                res = a[1] if a[0] == "const" else a
+        t = blk["term"]
+        k = t["k"]
+        if k == "return":
+            out.append((conds, res))
+            continue
+        if k == "call":
+            if t["dest"]["l"] == 0 and not t["dest"]["p"]:
+                a = as_atom(("call", cname(t), [term_of(body, x) for x in t["args"]], None))
+                if a is None:
+                    raise CheckerFailure("result is `%s`, not a recognised test" % cname(t))
+                res = a
+            if t.get("t") is not None:
+                stack.append((t["t"], conds, res, depth + 1))
+            continue
+        if k == "switch":
+            sw = mir.switch_enum(body, bb)
+            if sw is not None and sw["enum"] == "std::option::Option":
+                # `match opt { Some(..) => .., None => .. }` is the test opt.is_some()
+                a = as_atom(("call", "std::option::Option::is_some", [term_of(body, sw["place"])], None))
+                if a is None or a[0] != "atom":
+                    raise CheckerFailure("match on an Option that is not a recognised test")
+                for v, truth in (("Some", True), ("None", False)):
+                    tgt = mir.variant_target(sw, body, v)
+                    if tgt is not None and not body.is_unreachable_block(tgt):
+                        c2 = dict(conds)
+                        c2[a[1]] = truth == a[2]
+                        stack.append((tgt, c2, res, depth + 1))
+                continue
+            a = as_atom(term_of(body, t["op"]))
+            if a is None or a[0] != "atom":
+                raise CheckerFailure("branch on something that is not a recognised test")
+            for v, tgt in t["targets"] + [["otherwise", t["otherwise"]]]:
+                if body.is_unreachable_block(tgt):
+                    continue
+                truth = (v == "otherwise") if all(int(x) == 0 for x, _ in t["targets"]) else (v != "otherwise" and int(v) != 0)
+                c2 = dict(conds)
+                c2[a[1]] = truth == a[2]
+                stack.append((tgt, c2, res, depth + 1))
+            continue
+        for sx in body.succs(bb):
+            stack.append((sx, conds, res, depth + 1))
+    return out
+
+
+def is_conjunction_of(body, atom_of, atoms):
+    """(ok, why): body returns true exactly when every atom in `atoms` holds"""
+    try:
+        paths = conjunction_paths(body, atom_of)
+    except CheckerFailure as e:
+        return False, str(e)
+    atoms = set(atoms)
+    if not paths:
+        return False, "no path to a return"
+    for conds, res in paths:
+        if set(conds) - atoms:
+            return False, "also depends on %s" % sorted(map(str, set(conds) - atoms))
+        if res is True:
+            if not (set(conds) == atoms and all(conds.values())):
+                return False, "returns true with %s" % conds
+        elif res is False:
+            if all(conds.get(a, True) for a in atoms) and not any(v is False for v in conds.values()):
+                return False, "returns false although no test failed (%s)" % conds
+        elif isinstance(res, tuple) and res[0] == "atom":
+            k, pos = res[1], res[2]
+            if k not in atoms or not pos or k in conds or not all(conds.get(a) is True for a in atoms - {k}):
+                return False, "returns %s%s after %s" % ("" if pos else "!", k, conds)
+        else:
+            return False, "result not recognised"
+    return True, "true exactly when %s" % " && ".join(sorted(map(str, atoms)))
